@@ -78,31 +78,66 @@ def _outcome(exc):
     return "other:" + type(exc).__name__ + ":" + str(exc)[:80]
 
 
-def _build(case, divisor):
-    """real Channel / AsyncChannel (or a driver) over a LoginSimTransport"""
+CHAN_PROMPT = [None]
+
+
+def _chan_prompt():
+    if CHAN_PROMPT[0] is None:
+        from scrapli.channel.base_channel import BaseChannelArgs
+        CHAN_PROMPT[0] = BaseChannelArgs().comms_prompt_pattern
+    return CHAN_PROMPT[0]
+
+
+def _targs():
+    from scrapli.transport.base import BaseTransportArgs
+    return BaseTransportArgs(transport_options={}, host="sim", port=23, timeout_socket=1, timeout_transport=0, logging_uid="")
+
+
+def _mk_object(case, divisor):
+    """the object that logs in (possibly several times): (driver or None, channel, transport args).
+    via=driver: GenericDriver with all defaults, logins through open()/close();
+    build=driver: base Driver/AsyncDriver with default arguments (so the auth patterns are the ones a driver ends up with), the
+                  login loop called on its channel;   build=args: Channel(BaseChannelArgs()) directly"""
     from harness import logindevice as L
     from scrapli.channel import AsyncChannel, Channel
     from scrapli.channel.base_channel import BaseChannelArgs
-    from scrapli.transport.base import BaseTransportArgs
     L.install_clock()
-    dev = mk_device(case)
-    clock = L.FakeClock()
     sync = case["stack"] == "sync"
-    tk = dict(cuts=mk_cuts(case["cuts"]), on_empty=case.get("on_empty", "stall"), clock=clock, dts=case.get("dts", ()),
-              eof=case.get("eof", "raise"), budget=case.get("budget", 12), err_at=case.get("err_at", ()))
-    tcls = L.LoginSimTransport if sync else L.AsyncLoginSimTransport
     u, p, h = creds(case)
+    name = {"telnet": "telnet" if sync else "asynctelnet", "ssh": "system" if sync else "asynctelnet"}[case["flavour"]]
     if case.get("via") == "driver":
         from harness.simtransport import make_conn
-        name = {"telnet": "telnet" if sync else "asynctelnet", "ssh": "system"}[case["flavour"]]
-        conn, t = make_conn("generic", dev, stack=case["stack"], transport=name, auth_bypass=case.get("auth_bypass", False),
+        conn, t = make_conn("generic", None, stack=case["stack"], transport=name, auth_bypass=case.get("auth_bypass", False),
                             auth_username=S(u), auth_password=S(p), auth_private_key_passphrase=S(h), on_open=None,
-                            timeout_ops=case["ivl"] * divisor, transport_cls=lambda a, d, **k: tcls(a, d, **tk))
-        return dev, t, clock, conn, None
-    targs = BaseTransportArgs(transport_options={}, host="sim", port=23, timeout_socket=1, timeout_transport=0, logging_uid="")
-    t = tcls(targs, dev, **tk)
-    ch = (Channel if sync else AsyncChannel)(transport=t, base_channel_args=BaseChannelArgs(timeout_ops=case["ivl"] * divisor))
-    return dev, t, clock, None, ch
+                            timeout_ops=case["ivl"] * divisor)
+        return conn, conn.channel, conn._base_transport_args
+    if case.get("build") == "driver":
+        from scrapli.driver import AsyncDriver, Driver
+        conn = (Driver if sync else AsyncDriver)(host="sim", transport=name, auth_username=S(u), auth_password=S(p),
+                                                 auth_private_key_passphrase=S(h), comms_prompt_pattern=_chan_prompt(),
+                                                 timeout_ops=case["ivl"] * divisor, timeout_transport=0)
+        return conn, conn.channel, conn._base_transport_args
+    targs = _targs()
+    from harness.simtransport import SimTransport
+    ch = (Channel if sync else AsyncChannel)(transport=SimTransport(targs, None), base_channel_args=BaseChannelArgs(timeout_ops=case["ivl"] * divisor))
+    return None, ch, targs
+
+
+def _attach(case, sub, obj, divisor):
+    """fresh device + transport for one login of `sub` on the object"""
+    from harness import logindevice as L
+    conn, ch, targs = obj
+    sync = case["stack"] == "sync"
+    dev = mk_device(dict(sub, flavour=case["flavour"]))
+    clock = L.FakeClock()
+    tk = dict(cuts=mk_cuts(sub["cuts"]), on_empty=sub.get("on_empty", "stall"), clock=clock, dts=sub.get("dts", ()),
+              eof=sub.get("eof", "raise"), budget=sub.get("budget", 12), err_at=sub.get("err_at", ()))
+    t = (L.LoginSimTransport if sync else L.AsyncLoginSimTransport)(targs, dev, **tk)
+    ch.transport = t
+    if conn is not None:
+        conn.transport = t
+    ch._base_channel_args.timeout_ops = case["ivl"] * divisor
+    return dev, t, clock
 
 
 def _collect(case, dev, t, exc):
@@ -116,61 +151,93 @@ def _collect(case, dev, t, exc):
                 spans=list(dev.spans), accepted=dev.accepted, closed=dev.closed)
 
 
+def _logins(case):
+    """the logins performed on the one object, in order; the case's own login is the last"""
+    return list(case.get("prev", [])) + [case]
+
+
 def run_real_sync(case, divisor):
     from harness import logindevice as L
-    dev, t, clock, conn, ch = _build(case, divisor)
-    u, p, h = creds(case)
-    L.use_clock(clock)
-    exc = None
-    try:
-        if conn is not None:
-            conn.open()
-        else:
-            t.open()
-            from scrapli.channel import Channel
-            if case["flavour"] == "telnet":
-                Channel.channel_authenticate_telnet.__wrapped__(ch, auth_username=S(u), auth_password=S(p))
+    from scrapli.channel import Channel
+    obj = _mk_object(case, divisor)
+    conn, ch, _ = obj
+    res = None
+    for sub in _logins(case):
+        dev, t, clock = _attach(case, sub, obj, divisor)
+        u, p, h = creds(sub)
+        L.use_clock(clock)
+        exc = None
+        try:
+            if case.get("via") == "driver":
+                conn.auth_username, conn.auth_password, conn.auth_private_key_passphrase = S(u), S(p), S(h)
+                conn.open()
             else:
-                Channel.channel_authenticate_ssh.__wrapped__(ch, auth_password=S(p), auth_private_key_passphrase=S(h))
-    except BaseException as e:  # noqa: SimStall is a BaseException
-        if isinstance(e, (KeyboardInterrupt, SystemExit)):
-            raise
-        exc = e
-    finally:
-        L.use_clock(None)
-    return _collect(case, dev, t, exc)
+                t.open()
+                if case["flavour"] == "telnet":
+                    Channel.channel_authenticate_telnet.__wrapped__(ch, auth_username=S(u), auth_password=S(p))
+                else:
+                    Channel.channel_authenticate_ssh.__wrapped__(ch, auth_password=S(p), auth_private_key_passphrase=S(h))
+        except BaseException as e:  # noqa: SimStall is a BaseException
+            if isinstance(e, (KeyboardInterrupt, SystemExit)):
+                raise
+            exc = e
+        finally:
+            L.use_clock(None)
+        res = _collect(case, dev, t, exc)
+        try:   # close between logins (open, close, open, ...)
+            if case.get("via") == "driver":
+                conn.close()
+            else:
+                t.close()
+        except Exception:
+            pass
+    return res
 
 
 async def run_real_async(case, divisor):
     from harness import logindevice as L
-    dev, t, clock, conn, ch = _build(case, divisor)
-    u, p, h = creds(case)
-    L.use_clock(clock)
-    exc = None
-    try:
-        if conn is not None:
-            await conn.open()
-        else:
-            await t.open()
-            from scrapli.channel import AsyncChannel
-            if case["flavour"] == "telnet":
-                await AsyncChannel.channel_authenticate_telnet.__wrapped__(ch, auth_username=S(u), auth_password=S(p))
+    from scrapli.channel import AsyncChannel
+    obj = _mk_object(case, divisor)
+    conn, ch, _ = obj
+    res = None
+    for sub in _logins(case):
+        dev, t, clock = _attach(case, sub, obj, divisor)
+        u, p, h = creds(sub)
+        L.use_clock(clock)
+        exc = None
+        try:
+            if case.get("via") == "driver":
+                conn.auth_username, conn.auth_password, conn.auth_private_key_passphrase = S(u), S(p), S(h)
+                await conn.open()
             else:
-                await AsyncChannel.channel_authenticate_ssh.__wrapped__(ch, auth_password=S(p), auth_private_key_passphrase=S(h))
-    except BaseException as e:  # noqa
-        if isinstance(e, (KeyboardInterrupt, SystemExit, asyncio.CancelledError)):
-            raise
-        exc = e
-    finally:
-        L.use_clock(None)
-    return _collect(case, dev, t, exc)
+                await t.open()
+                if case["flavour"] == "telnet":
+                    await AsyncChannel.channel_authenticate_telnet.__wrapped__(ch, auth_username=S(u), auth_password=S(p))
+                else:
+                    await AsyncChannel.channel_authenticate_ssh.__wrapped__(ch, auth_password=S(p), auth_private_key_passphrase=S(h))
+        except BaseException as e:  # noqa
+            if isinstance(e, (KeyboardInterrupt, SystemExit, asyncio.CancelledError)):
+                raise
+            exc = e
+        finally:
+            L.use_clock(None)
+        res = _collect(case, dev, t, exc)
+        try:
+            if case.get("via") == "driver":
+                await conn.close()
+            else:
+                t.close()
+        except Exception:
+            pass
+    return res
 
 
 # ------------------------------------------------------------------ model side
 def model_line(case, res):
     loop = LOOPS[(case["flavour"], case["stack"])]
     tape = ",".join("E" if e[0] == "E" else f"{hexs(e[1])}@{e[2]}" for e in res["tape"]) or "."
-    return f"run {loop} {'g' if case.get('via') == 'driver' else 'c'} {case['ivl']} {tape}"
+    which = "g" if case.get("via") == "driver" else ("d" if case.get("build") == "driver" else "c")
+    return f"run {loop} {which} {case['ivl']} {tape}"
 
 
 def model_view(line, case):
@@ -200,7 +267,10 @@ def real_patterns():
     from scrapli.driver.generic import GenericDriver
     import inspect
     gp = inspect.signature(GenericDriver.__init__).parameters["comms_prompt_pattern"].default
-    return dict(U=ch.auth_telnet_login_pattern, P=ch.auth_password_pattern, H=ch.auth_passphrase_pattern,
+    from scrapli.driver import Driver
+    dch = Driver(host="sim", transport="telnet").channel
+    return dict(dU=dch.auth_telnet_login_pattern, dP=dch.auth_password_pattern, dH=dch.auth_passphrase_pattern,
+                U=ch.auth_telnet_login_pattern, P=ch.auth_password_pattern, H=ch.auth_passphrase_pattern,
                 c=ch._get_prompt_pattern(class_pattern=BaseChannelArgs().comms_prompt_pattern),
                 g=ch._get_prompt_pattern(class_pattern=gp), chan=ch)
 
@@ -257,6 +327,16 @@ def expected(case):
     if d.get("needs_kick", 0) and case.get("on_empty", "stall") != "empty":
         return None
     dev_u, dev_p, dev_h = B(d.get("username", "admin")), B(d.get("password", "s3cret")), d.get("passphrase")
+    rf = d.get("reject_first", 0)
+    if rf:
+        # the server rejects the first rf correct submissions and prompts again
+        if not (u == dev_u and p == dev_p) or dev_h is not None:
+            return None
+        if fl == "ssh" and case["stack"] == "sync":
+            return "fail"        # "Permission denied, please try again." is a fatal client message
+        if d.get("after_max", "close") != "reprompt" and d.get("max_tries", 3) <= rf:
+            return None
+        return "done" if rf < MAXW else "fail"
     if fl == "telnet":
         if u == dev_u and p == dev_p:
             return "done"
@@ -309,8 +389,9 @@ def oracle(case, res):
             if need is None:
                 need = ["passphrase"] if case["dev"].get("passphrase") is not None and h == B(case["dev"]["passphrase"]) else \
                     (["password"] if case["dev"].get("passphrase") is None else None)
-            if need is not None and any(counts.get(k, 0) != 1 for k in need):
-                out.append(f"valid credentials: writes per credential {counts}, expected exactly one of {need}")
+            per = 1 + case["dev"].get("reject_first", 0)
+            if need is not None and any(counts.get(k, 0) != (per if (k == "password" or case["flavour"] == "telnet") else 1) for k in need):
+                out.append(f"valid credentials: writes per credential {counts}, expected exactly {per} of {need}")
     elif exp in ("fail", "fail-now"):
         if not (oc.startswith("authfailed") or oc == "fatal"):
             out.append(f"rejected credentials / fatal message but login ended with {oc} instead of ScrapliAuthenticationFailed")
@@ -404,8 +485,9 @@ POST_CLEAN = ["", "Welcome to r1\n", "\nThis system is monitored.\nAll access is
               "Change your password soon\n", "3 failed login attempts since last login\n", "username and password are case sensitive\n",
               "enter passphrase hints at help.example\n"]
 POST_PREFIXY = ["Last login: Mon Sep  1 10:00:00 2025 from 10.0.0.1\n", "Your password: expires in 3 days\n",
-                "Last login: never\nLast password: change 2020\n", "hint: Login: field is case sensitive\n"]
-PRE_PREFIXY = ["Please login: use your AD account\n", "Lost password: call 555\n"]
+                "Last login: never\nLast password: change 2020\n", "hint: Login: field is case sensitive\n",
+                "Unauthorized login: prohibited\n", "Last login: Fri Sep 25 09:12:01 2026 from 192.0.2.7 on pts/0\n"]
+PRE_PREFIXY = ["Please login: use your AD account\n", "Lost password: call 555\n", "Unauthorized login: prohibited\n"]
 OUT_OF_DOMAIN_BANNERS = ["note: username: is case sensitive\n", "login:\n", "old password:\n", "r1>\n"]
 SHELLS = ["r1#", "r1>", "admin@r1:/$", "router-1.lab(config)#"]
 SSH_WARN = ["", "Warning: Permanently added 'r1' (ED25519) to the list of known hosts.\n",
@@ -426,7 +508,7 @@ FATAL_UNHANDLED = ["ssh: connect to host r1 port 22: Connection refused\n", "kex
 def base_case(flavour, stack, **dev):
     d = dict(username="admin", password="s3cret")
     d.update(dev)
-    return dict(flavour=flavour, stack=stack, via="channel", dev=d,
+    return dict(flavour=flavour, stack=stack, via="channel", build="args", dev=d,
                 creds=dict(username="admin", password="s3cret", passphrase="keypass"),
                 cuts=["all"], on_empty="stall", dts=[], eof="raise", budget=12, ivl=1)
 
@@ -473,13 +555,15 @@ def exhaustive_cases(tier):
         n = 110 if c["creds"]["password"] == "bad" and c["flavour"] == "telnet" else stream_len_estimate(c) + 2
         if tier == "quick" and c["creds"]["password"] == "bad":
             n = min(n, 60)
-        out.append(with_cuts(c, ["all"]))
-        out.append(with_cuts(c, ["one"]))
-        for i in range(1, n):
-            out.append(with_cuts(c, ["at", [i]]))
+        for build in ("args", "driver"):
+            cb = dict(c, build=build)
+            out.append(with_cuts(cb, ["all"]))
+            out.append(with_cuts(cb, ["one"]))
+            for i in range(1, n):
+                out.append(with_cuts(cb, ["at", [i]]))
         m = n if tier == "thorough" else min(n, 34)
         for i, j in itertools.combinations(range(1, m), 2):
-            out.append(with_cuts(c, ["at", [i, j]]))
+            out.append(with_cuts(dict(c, build="driver" if (i + j) % 2 else "args"), ["at", [i, j]]))
     return out
 
 
@@ -509,7 +593,7 @@ def connerr_cases(tier, divisor, rng):
             if n > 40:
                 singles = sorted(set(rng.sample(singles, 40)) | {1, 2, n, n + 1})
             for i in singles:
-                c = json.loads(json.dumps(c0)); c["err_at"] = [i]
+                c = json.loads(json.dumps(c0)); c["err_at"] = [i]; c["build"] = "driver" if i % 2 else "args"
                 out.append(c)
             m = n + 3 if n <= 14 else 0
             pairs = list(itertools.combinations(range(1, m), 2)) if m else \
@@ -521,6 +605,43 @@ def connerr_cases(tier, divisor, rng):
             for step in (2, 3, 4):
                 c = json.loads(json.dumps(c0)); c["err_at"] = list(range(step, 12 * step, step))
                 out.append(c)
+    return out
+
+
+def history_cases(tier, rng):
+    """HISTORIES on one channel / driver object: open, close, open, ... (1..3 logins exhaustively over {ok, re-prompted once then
+    ok, rejected}, some of length 4), each login with its own device; the case's result is its LAST login"""
+    def login(flavour, stack, kind, cuts):
+        if flavour == "telnet":
+            c = base_case("telnet", stack, user_prompt="Username: ", pass_prompt="Password: ", banner="Welcome\n", max_tries=3,
+                          after_max="reprompt")
+        else:
+            c = base_case("ssh", stack, pass_prompt="admin@r1's password: ", banner="Welcome\n", max_tries=3)
+        if kind == "reprompt":
+            c["dev"]["reject_first"] = 1
+        elif kind == "rejected":
+            c["creds"]["password"] = "wr0ng"
+        elif kind == "phrase":
+            c["dev"]["passphrase"] = "keypass"
+        c["cuts"] = cuts
+        return c
+    out = []
+    kinds = {"telnet": ["ok", "reprompt", "rejected"], "ssh": ["ok", "reprompt", "rejected", "phrase"]}
+    combos = [(fl, st, "channel", b) for fl in ("telnet", "ssh") for st in ("sync", "async") for b in ("args", "driver")]
+    combos += [("telnet", "sync", "driver", "args"), ("telnet", "async", "driver", "args"), ("ssh", "sync", "driver", "args")]
+    for fl, st, via, build in combos:
+        seqs = [s for n in (1, 2, 3) for s in itertools.product(kinds[fl], repeat=n)]
+        seqs += [("ok",) * 4, ("reprompt",) * 4, ("ok", "reprompt", "ok", "ok")]
+        if fl == "ssh":
+            seqs += [("phrase",) * 4]
+        if via == "driver" or tier == "quick":
+            seqs = [s for s in seqs if len(s) != 3 or rng.random() < (0.5 if via == "driver" else 0.6)]
+        for seq in seqs:
+            subs = [login(fl, st, k, rng.choice([["all"], ["one"], ["list", [5, 3, 9, 2, 40, 7, 40]]])) for k in seq]
+            last = subs[-1]
+            last.update(via=via, build=build, ivl=(0 if st == "sync" else 1) if via == "driver" else 1)
+            last["prev"] = [{k: v for k, v in x.items() if k in ("dev", "creds", "cuts", "on_empty", "dts", "eof", "budget")} for x in subs[:-1]]
+            out.append(last)
     return out
 
 
@@ -578,6 +699,9 @@ def gen_random(rng, stream):
     if dev.get("passphrase") and rng.random() < 0.3:
         case["creds"]["passphrase"] = "badphrase"
     case["cuts"] = rand_cuts(rng, case)
+    case["build"] = rng.choice(["args", "driver"])
+    if stream == "prefixy" and rng.random() < 0.35:
+        case["cuts"] = ["all"]     # whole reads: a mid-line `login:` / `password:` must not be answered at all
     case["ivl"] = rng.choice([1, 1, 2]) if stack == "async" else rng.choice([0, 1, 1, 2])
     if dev.get("needs_kick") or rng.random() < 0.25:
         case["on_empty"] = "empty"
@@ -643,7 +767,8 @@ def real_pred_bits(pats, s):
     except ScrapliAuthenticationFailed:
         fatal = True
     return "".join("1" if x else "0" for x in (pats["U"].search(s), pats["P"].search(s), pats["H"].search(s),
-                                               pats["c"].search(s), pats["g"].search(s), fatal))
+                                               pats["c"].search(s), pats["g"].search(s), fatal,
+                                               pats["dU"].search(s), pats["dP"].search(s), pats["dH"].search(s)))
 
 
 # ------------------------------------------------------------------ main
@@ -679,7 +804,8 @@ def run(tier, seed):
                "reject -> re-prompt 1..n then close/keep prompting; ssh: client warnings, [fatal message], [passphrase prompt], "
                "password prompt, 'Permission denied, please try again') x credentials (valid / wrong password / wrong user / wrong "
                "passphrase) x cut schedule (whole, 1-byte, every single and double cut of the output stream for the short dialogues, "
-               "PRNG cut lists) x clock script for empty reads x sync/async x loop called directly or through driver.open(). "
+               "PRNG cut lists) x clock script for empty reads x sync/async x channel built as BaseChannelArgs() or by Driver()/AsyncDriver() with default arguments x loop called "
+               "directly or through driver.open() x histories of 1..4 logins on ONE object (ok / re-prompted / rejected / passphrase). "
                "Non-trivial = at least one credential write and at least two reads; distinct by the full case record. Each case runs "
                "the real login loop over a causal device and the Lean model on the recorded read tape; the oracle judges the "
                "device-side log (state, bytes written) and the exception class.")
@@ -718,6 +844,8 @@ def run(tier, seed):
         cases.append(c); streams.append("exhaustive")
     for c in connerr_cases(tier, divisor, ck.rng):
         cases.append(c); streams.append("connerr")
+    for c in history_cases(tier, ck.rng):
+        cases.append(c); streams.append("history")
     nrand = 1500 if tier == "quick" else 30000
     for i in range(nrand):
         st = "clean" if i % 10 < 6 else ("prefixy" if i % 10 < 9 else "outdomain")
@@ -755,7 +883,7 @@ def run(tier, seed):
                           f"outcome={res['outcome'].split(':')[0]}", f"reads={min(len(res['tape']) // 10 * 10, 100)}+",
                           "empty-reads" if any(e[0] == "c" and not e[1] for e in res["tape"]) else "no-empty-reads",
                           f"conn-errors={min(sum(1 for e in res['tape'] if e[0] == 'E'), 3)}",
-                          f"via={case.get('via')}"))
+                          f"via={case.get('via')}", f"build={case.get('build')}", f"logins-on-object={len(case.get('prev', [])) + 1}"))
             viol = oracle(case, res)
             if viol:
                 rec = {"case": case, "stream": stream, "what": viol, "outcome": res["outcome"],
@@ -792,7 +920,7 @@ def run(tier, seed):
             if rb != mout[base + i]:
                 bad += 1
                 ck.disagree("hand-modelled patterns vs re.search / _ssh_message_handler", {"string": hexs(s)},
-                            f"re={rb} model={mout[base + i]} (username password passphrase chanPrompt genericPrompt fatal)")
+                            f"re={rb} model={mout[base + i]} (username password passphrase chanPrompt genericPrompt fatal driver-username driver-password driver-passphrase)")
         ck.extra["pattern_strings_checked"] = len(pstr)
         ck.traces_validated += len(pstr) - bad
     ck.extra["advisory_out_of_domain_cases"] = adv
